@@ -213,13 +213,110 @@ def run(ctx):
     else:
         ok, why = check_argmin_scan(facts, FNO)
         run.inst("C18.D4", "full-scan-argmin", ok, why, where(facts.fns[FNO]["span"]))
+    # ---------------- D5: the face a lookup indexes on is the arg-min's answer on every path (no shortcut in front of it)
+    EST = "a5::core::cell::lonlat_to_estimate"
+    FWD_ = "a5::projections::dodecahedron::DodecahedronProjection::forward"
+    if EST not in facts.fns:
+        run.missing("C18.D5", EST)
+    else:
+        from ..query import returns_under, is_variant, field_of
+        fe = fn_terms(facts, EST)
+
+        def peel_(t):
+            while t[0] in ("ref", "deref") or (t[0] == "call" and isinstance(t[1], str) and t[1].endswith("::clone") and t[2]):
+                t = t[2] if t[0] == "ref" else (t[1] if t[0] == "deref" else t[2][0])
+            return t
+
+        def from_argmin(t):
+            t = peel_(t)
+            if t[0] == "field" and t[2] == "id":
+                t = peel_(t[1])
+            if not (t[0] == "call" and t[1] == FNO and len(t[2]) == 1):
+                return False
+            a = peel_(t[2][0])
+            return a[0] == "call" and isinstance(a[1], str) and a[1].endswith("::from_lon_lat") and peel_(a[2][0]) == ("param", 1)
+        faces = []
+        for t in returns_under(fe, {}):
+            if is_variant(t, "Ok"):
+                v = field_of(fe, t[3][0], "origin_id")
+                faces.append(("returned cell", v))
+        for c in fe.calls():
+            if c.callee == FWD_:
+                faces.append(("forward projection", c.args[2]))
+        bad5 = [(w_, fmt(v)[:60] if v is not None else "?") for w_, v in faces if v is None or not from_argmin(v)]
+        run.inst("C18.D5", "face-is-argmin-result", bool(faces) and not bad5,
+                 "%d uses of the indexing face in lonlat_to_estimate, all find_nearest_origin(from_lon_lat(point))%s" % (len(faces), "" if not bad5 else "; not so: %s" % bad5[:2]),
+                 where(fe.fn["span"]))
     run.floor("C18", "rule instances", len(run.instances), 16)
+
+
+def check_argmin_fold(facts, ft, measure, source):
+    """the same arg-min written as `table.iter().fold((inf, first), |(best, who), cand| if d(cand) < best {(d, cand)} else {(best, who)})`:
+    whole table, strict comparison with the carried minimum, minimum and face replaced together, face of the result returned"""
+    from ..query import closure_subst
+    folds = [c for c in ft.calls() if c.callee and c.callee.endswith("::fold") and len(c.args) == 3]
+    if len(folds) != 1:
+        return None
+    c = folds[0]
+    src_calls = [x[1] for x in walk(c.args[0]) if x[0] == "call"]
+    if not (any(n == source for n in src_calls) and all(n == source or n.split("::")[-1] in ("iter", "into_iter", "deref", "as_slice") for n in src_calls)):
+        return False, "fold does not run over the whole result of %s (iterator built by %s)" % (source.split("::")[-1], src_calls)
+    init = c.args[1]
+    while init[0] in ("ref", "deref"):
+        init = init[2] if init[0] == "ref" else init[1]
+    if not (init[0] == "agg" and init[1] == "tuple" and len(init[3]) == 2 and const_float(init[3][0]) == float("inf")):
+        return False, "fold does not start from (+infinity, some face): %s" % fmt(init)[:80]
+    clos = c.args[2]
+    while clos[0] in ("ref", "deref"):
+        clos = clos[2] if clos[0] == "ref" else clos[1]
+    if clos[0] != "agg" or clos[1] != "closure" or clos[2] not in facts.fns:
+        return False, "fold step is not a closure of this function"
+    fc = fn_terms(facts, clos[2])
+    sw = [(b, fc.switch_term(b)) for b in sorted(fc.cfg.reach) if fc.blocks[b]["term"]["k"] == "switch"]
+    cmp_ = [(b, d) for b, d in sw if d[0] == "bin" and d[1] in ("Lt", "Gt")]
+    if len(cmp_) != 1 or len(sw) != 1:
+        return False, "fold step must contain exactly one strict comparison (found %d tests)" % len(sw)
+    b, d = cmp_[0]
+    x, y = (d[2], d[3]) if d[1] == "Lt" else (d[3], d[2])
+    best = ("field", ("param", 2), 0)
+    if not (x[0] == "call" and x[1] == measure and strip_site(y) == strip_site(best)):
+        return False, "fold step compares %s with %s, expected %s(point, candidate.axis) < carried minimum" % (fmt(x)[:50], fmt(y)[:40], measure.split("::")[-1])
+    pt = closure_subst(facts, clos[2], x[2][0])
+    if pt is None or pt != ("param", 1):
+        return False, "distance is measured from %s, not from the query point" % (fmt(pt) if pt else "?")
+    if not any(z == ("param", 3) for z in walk(x[2][1])) or not any(z[0] == "field" and z[2] == "axis" for z in walk(x[2][1])):
+        return False, "distance is not measured to the candidate face's axis: %s" % fmt(x[2][1])
+    from ..query import returns_under
+    yes = returns_under(fc, {strip_site(d): 1})
+    no = returns_under(fc, {strip_site(d): 0})
+
+    def pair(t):
+        while t[0] in ("ref", "deref"):
+            t = t[2] if t[0] == "ref" else t[1]
+        return (t[3][0], t[3][1]) if t[0] == "agg" and t[1] == "tuple" and len(t[3]) == 2 else None
+    py, pn = [pair(t) for t in yes], [pair(t) for t in no]
+    ok_yes = len(py) == 1 and py[0] is not None and strip_site(py[0][0]) == strip_site(x) and any(z == ("param", 3) for z in walk(py[0][1])) and not any(z == ("param", 2) for z in walk(py[0][1]))
+    ok_no = len(pn) == 1 and pn[0] is not None and strip_site(pn[0][0]) == strip_site(best) and strip_site(pn[0][1]) == strip_site(("field", ("param", 2), 1))
+    if not (ok_yes and ok_no):
+        return False, "fold step must return (new distance, candidate) when smaller and the carried pair otherwise: %s / %s" % ([fmt(t)[:60] for t in yes], [fmt(t)[:60] for t in no])
+    # the function returns the face component of the fold result
+    rts = [ft.return_term(rb) for rb in ft.return_blocks()]
+    fold_t = ("call", c.callee, tuple(c.args), (ft.path, c.block))
+    ok_ret = len(rts) == 1 and any(z[0] == "field" and str(z[2]) == "1" and strip_site(z[1]) == strip_site(fold_t) for z in walk(rts[0]))
+    if not ok_ret:
+        return False, "the face carried by the fold is not what is returned: %s" % [fmt(t)[:80] for t in rts]
+    return True, "fold over every face of %s from (+inf, _): (minimum, face) replaced together exactly when %s(point, face.axis) is strictly smaller; the carried face is returned" % (
+        source.split("::")[-1], measure.split("::")[-1])
 
 
 def check_argmin_scan(facts, path, measure="a5::core::origin::haversine", source="a5::core::origin::get_origins"):
     ft = fn_terms(facts, path)
     cfg = ft.cfg
     loops = cfg.loops()
+    if len(loops) == 0:
+        r_ = check_argmin_fold(facts, ft, measure, source)
+        if r_ is not None:
+            return r_
     if len(loops) != 1:
         return False, "expected exactly one loop, found %d - unrecognised idiom, cannot decide" % len(loops)
     (head, body), = loops.items()
